@@ -37,9 +37,25 @@ func (c c11cfg) name() string {
 func c11body(c c11cfg) func(x *vsched.Exec) {
 	return func(x *vsched.Exec) {
 		stallKey := ""
+		abortNext := false
+		var abortedTxn []string
 		e := vwNew(func(o *ClientOption, srv *simredis.Server, n *simnet.Net) {
 			for _, k := range []string{"a", "b", "c"} {
 				srv.Do("SET", k, "v"+k)
+			}
+			// pendfail: the server aborts the caching transaction of the parked flight (EXEC answers nil), so the flight
+			// others wait on ends with an error and nothing is cached
+			srv.Hook = func(ss *simredis.Session, argv []string) *simredis.Reply {
+				if strings.ToUpper(argv[0]) == "EXEC" && abortNext {
+					abortNext = false
+					if n := len(ss.Received); n >= 2 {
+						abortedTxn = append(abortedTxn, strings.Join(ss.Received[n-2], " "))
+					}
+					srv.AbortTxn(ss)
+					r := simredis.NilArr()
+					return &r
+				}
+				return nil
 			}
 			if c.wires == 2 {
 				o.PipelineMultiplex = 1
@@ -77,7 +93,7 @@ func c11body(c c11cfg) func(x *vsched.Exec) {
 		pendingStarted := 0
 		npending := 0
 		for _, k := range []string{"a", "b", "c"} {
-			if c.pre[k] == "pending" {
+			if c.pre[k] == "pending" || c.pre[k] == "pendfail" {
 				npending++
 			}
 		}
@@ -91,9 +107,10 @@ func c11body(c c11cfg) func(x *vsched.Exec) {
 			}
 			// park one concurrent flight per pending key (its reply is withheld for a while)
 			for _, k := range []string{"a", "b", "c"} {
-				if c.pre[k] == "pending" {
+				if c.pre[k] == "pending" || c.pre[k] == "pendfail" {
 					k := k
 					stallKey = k
+					abortNext = c.pre[k] == "pendfail"
 					vsched.GoDaemon("flight-"+k, func() {
 						e.client.DoCache(ctx, b.Get().Key(k).Cache(), ttl)
 					})
@@ -107,9 +124,11 @@ func c11body(c c11cfg) func(x *vsched.Exec) {
 				for i, k := range c.batch {
 					cts[i] = CT(b.Get().Key(k).Cache(), ttl)
 				}
-				for _, r := range e.client.DoMultiCache(ctx, cts...) {
+				for i, r := range e.client.DoMultiCache(ctx, cts...) {
 					s, err := r.ToString()
-					if err != nil {
+					if err != nil && c.pre[c.batch[i]] == "pendfail" {
+						s = "<err>" // the error of this position's own (failing) read
+					} else if err != nil {
 						callErr = err
 					}
 					got = append(got, s)
@@ -161,11 +180,33 @@ func c11body(c c11cfg) func(x *vsched.Exec) {
 			return
 		}
 		for i, k := range c.batch {
+			if c.pre[k] == "pendfail" {
+				// the flight this position waits on is aborted by the server: the position reports that error, or - when the
+				// aborted flight had already ended before the batch looked (nothing is cached then) - the value the batch
+				// fetched itself
+				if got[i] != "<err>" && got[i] != "v"+k {
+					x.Fail("result at a position is not the reply for that position's key", "%s: keys %v results %v (position %d holds %q, the flight it waited on was aborted by the server); pre-state %v; aborted transactions %v; server log %v", c.name(), c.batch, got, i, got[i], c.pre, abortedTxn, c11log(e.srv))
+				}
+				continue
+			}
 			if got[i] != "v"+k {
 				x.Fail("result at a position is not the reply for that position's key", "%s: keys %v results %v (position %d holds %q, want %q); pre-state %v", c.name(), c.batch, got, i, got[i], "v"+k, c.pre)
 			}
 		}
 	}
+}
+
+func c11log(srv *simredis.Server) []string {
+	var out []string
+	for _, ss := range srv.Sessions {
+		for _, a := range ss.Received {
+			if up := strings.ToUpper(a[0]); up == "HELLO" || up == "CLIENT" && len(a) > 1 && strings.ToUpper(a[1]) != "CACHING" {
+				continue
+			}
+			out = append(out, fmt.Sprintf("s%d:%s", ss.ID, strings.Join(a, " ")))
+		}
+	}
+	return out
 }
 
 func TestVerif_C11(t *testing.T) {
@@ -204,16 +245,19 @@ func TestVerif_C11(t *testing.T) {
 							}
 						}
 						states := []string{"hit", "miss", "pending"}
+						if api == "multi" {
+							states = append(states, "pendfail") // a flight that ends with an error (per-position errors exist only in DoMultiCache)
+						}
 						total := 1
 						for range uk {
-							total *= 3
+							total *= len(states)
 						}
 						for code := 0; code < total; code++ {
 							pre := map[string]string{}
 							cc := code
 							for _, k := range uk {
-								pre[k] = states[cc%3]
-								cc /= 3
+								pre[k] = states[cc%len(states)]
+								cc /= len(states)
 							}
 							n++
 							if !r.Mine(n) {
